@@ -24,19 +24,19 @@ PENDING = {
 
 CHECKS = {
  "C11": dict(engine="sim-hist-rtree", cat="exploration", ref="DESIGN.md §6",
-   text="Seeded search over insert/delete/query histories (<=400 ops, phases that drain the tree to empty and refill it, random branching parameters, duplicates/coincident/degenerate boxes) executed against the real index/rtree and a brute-force multiset model; Size, Delete results, 'absent delete changes nothing', SearchIntersect multiset equality and the balance/envelope/fan-out invariants (read through the verif walk hook) are checked after every operation. Sampling, not enumeration: a clean batch is evidence over the reported number of distinct histories and tree shapes.",
+   text="Seeded search over insert/delete/query histories (<=400 ops, deep-churn histories at 50-130 objects, one in 300 up to 7000 ops; phases that drain the tree to empty and refill it; branching parameters up to 140; duplicates incl. the same object stored twice, coincident/degenerate boxes, grid spacings from 0.1 to 1000; one history in twelve insert-only over slice-typed geometries) executed against the real index/rtree and a brute-force multiset model; Size, Delete results, 'absent delete changes nothing', SearchIntersect multiset equality and the balance/envelope/fan-out invariants (read through the verif walk hook) are checked after every operation. Sampling, not enumeration: a clean batch is evidence over the reported number of distinct histories and tree shapes.",
    note="Trusted: the multiset model and independently written box predicates; the read-only walk hook. One client, no fault kinds exist for this component (stated in DESIGN §6); objects restricted to comparable values with finite valid boxes as the property states.",
    technique="deterministic simulation: seeded operation histories vs executable reference model, invariants after every step, tape-minimised replay"),
  "C12": dict(engine="sim-hist-rtree", cat="exploration", ref="DESIGN.md §6",
-   text="Same seeded histories as C11 with NearestNeighbor / NearestNeighbors(k) queries interleaved after mutations; answers compared by distance (never identity) with a linear scan: k=1 minimum distance, k>1 exactly min(k,Size) stored objects, non-decreasing, distance multiset equal to the k smallest, nil tail.",
+   text="Same seeded histories as C11 with NearestNeighbor / NearestNeighbors(k) queries interleaved after mutations; answers compared by distance (never identity) with a linear scan, and held across later operations (an earlier answer must stay what it was): k=1 minimum distance, k>1 exactly min(k,Size) stored objects, non-decreasing, distance multiset equal to the k smallest, nil tail.",
    note="Trusted: the oracle's own distance function (hypot of per-axis gaps) with 1e-12 relative tolerance for ties; runs in which a C11-side failure (panic in Insert/Delete, wrong Delete result) occurs are abandoned and counted, since C11's check reports them.",
    technique="deterministic simulation: seeded operation histories vs brute-force reference, tape-minimised replay"),
  "C19": dict(engine="sim-hist-route", cat="exploration", ref="DESIGN.md §7",
-   text="Seeded search over AddLink/ShortestRoute histories (<=40 links on a small lattice with merged, 1-ulp-perturbed and distinct end points, random link geometries and speeds, both MinimizeOptions, queries interleaved with AddLinks) on the real route package, its rtree and gonum's A*; the simulator owns the order in which map-backed neighbour lists reach A*. Every answer is checked against a Dijkstra model: valid chain from the nearest start node to the nearest end node, reported totals equal the sums over the returned links, cost minimal within 1e-9 relative, empty route when unreachable.",
+   text="Seeded search over AddLink/ShortestRoute histories (<=40 links on a small lattice with merged, 1-ulp-perturbed and distinct end points, random link geometries and speeds, both MinimizeOptions, queries interleaved with AddLinks; one run in ten with up to 260 links over corridor- or grid-shaped lattices of up to ~270 nodes and per-axis coordinate scales from 1e-3 to 1e6; one query in five runs as a PAIR of ShortestRoute calls interleaved by the token scheduler at every neighbour-list hand-over) on the real route package, its rtree and gonum's A*; the simulator owns the order in which map-backed neighbour lists reach A*. Every answer is checked against a Dijkstra model: valid chain from the nearest start node to the nearest end node, reported totals equal the sums over the returned links, cost minimal within 1e-9 relative, empty route when unreachable.",
    note="Trusted: the oracle's Dijkstra and polyline lengths. Query points keep a margin so that the nearest node is unique; equal-cost alternatives are accepted. No fault kinds exist for this component; the neighbour order is the only nondeterminism and is drawn from the tape through the add-only verif hook in Network.From/Nodes.",
    technique="deterministic simulation: seeded AddLink/query histories with simulator-owned map order vs Dijkstra reference, tape-minimised replay"),
  "C10": dict(engine="sim-hist-proj", cat="exploration", ref="DESIGN.md §5",
-   text="Seeded search over histories of 2-4 interleaved simulated clients building and calling transformers over a shared pool of spatial references (registry names = shared pointers, 3-/7-parameter datums needing the WGS84 hop, non-default axis orders, +pm, +units, +nadgrids), each call compared bit-for-bit with a fresh world (same definitions parsed anew, new transformer, single call), canary transformations over the process-global registry re-evaluated after every run; Geom.Transform on all eight geometry types with a stub transformer wrapped by a fault injector failing on a tape-chosen vertex: same type/nesting, vertex i = t(vertex i), input untouched, nil = identity, the transformer's error returned, no panic.",
+   text="Seeded search over histories of 2-4 interleaved simulated clients building and calling transformers over a shared pool of spatial references (registry names = shared pointers, 3-/7-parameter datums needing the WGS84 hop, non-default axis orders, +pm, +units, +nadgrids), each call compared bit-for-bit with a fresh world (same definitions parsed anew, new transformer, single call), canary transformations over the process-global registry re-evaluated after every run; Geom.Transform on all eight geometry types (collections nested up to 40 levels, closed rings, signed zeros, huge values) with a sign-of-zero-sensitive stub transformer, optionally re-entrant, wrapped by a fault injector failing on a tape-chosen vertex: same type/nesting, vertex i = t(vertex i), input untouched, nil = identity, the transformer's error returned, no panic.",
    note="Trusted: the fresh-world oracle runs the same real code (so it cannot see errors that are history-independent - those are C08/C09/C20 territory); pool members are distinct catalogue entries (two separately parsed copies of one definition flip between the Equal shortcut and inverse-forward after use, a 1e-7 m effect the property does not state); panics inside NewTransform itself are outside the statement and only counted; transformers are interleaved, never run in parallel.",
    technique="deterministic simulation: seeded interleaved client histories vs fresh-world reference, error injection through the Transformer seam, tape-minimised replay"),
  "C07": dict(engine="sim-store", cat="fault_enumeration", ref="DESIGN.md §4",
@@ -44,8 +44,8 @@ CHECKS = {
    note="Trusted: the independent serializer/layout, the allocation meter (runtime/metrics, single goroutine), the NaN-aware equality. Workers run under ulimit -v 4 GiB; an unsurvivable allocation kills the worker and is attributed to the journalled run (class process-crash, seed-only replay). Success on truncated/error-interrupted input is only counted: the statement demands a geometry or an error, not rejection. Failing allocations/syscalls inside the Go runtime cannot be injected.",
    technique="deterministic simulation of a faulty store/stream: enumerated storage and reader faults per seeded item, allocation meter, tape-minimised replay"),
  "C18": dict(engine="sim-osm", cat="exploration", ref="DESIGN.md §3",
-   text="The real ExtractXML (worker pool of real goroutines, channel, RWMutex-guarded maps, pass loop, osmxml scanner, errgroup) runs under a token-passing scheduler that takes every scheduling decision at every lock acquisition, channel operation, spawn and join from the seed (strategies: round-robin, uniform, sticky, PCT priorities, long worker stalls, starve-one; 1-8 workers), over a simulated file (legal short and (0,nil) reads, an I/O error at byte k of pass p, a failing Seek) and a context cancelled at a chosen scheduler step. Seeded documents (<=41 elements, shared nodes, closed ways, dangling refs, relations of relations with cycles, any element order) and keep functions (tags, bounds, all). Oracle: the sequential least-fixpoint model (key sets and stored values), Check()==nil iff nothing dangles, Filter by tags/all equals the model's filter and is idempotent, termination without deadlock within 2|doc|+2 passes; under an injected fault only (nil, error) or the exact model result is accepted.",
-   note="Trusted: the scheduler's yield placement is complete for lock-protected code (a change that removes a lock is a data race outside this design); osmxml/encoding-xml are synchronous; PBF input (unsimulated decoder goroutines) is not covered; Filter's own map order is not behind a seam (evaluated 4x per run, 64x in replay); CountTags and Geom are not part of the statement and are not checked. Workers left behind by extract's error returns are counted, not reported (C18 is silent about them).",
+   text="The real ExtractXML (worker pool of real goroutines, channel, RWMutex-guarded maps, pass loop, osmxml scanner, errgroup) runs under a token-passing scheduler that takes every scheduling decision at every lock acquisition, channel operation, spawn and join from the seed (strategies: round-robin, uniform, sticky, PCT priorities, long worker stalls, starve-one; 1-8 workers), over a simulated file (legal short and (0,nil) reads, an I/O error at byte k of pass p, a failing Seek) and a context cancelled at a chosen scheduler step. Seeded documents (<=41 elements, shared nodes, closed ways, dangling refs with ids coinciding across types, relations of relations with cycles, any element order; one run in 25 as PBF through ExtractPBF) and keep functions (tags, bounds, all). RWMutex writer preference is modelled (a writer that has called Lock blocks later readers), so read-lock order inversions deadlock in simulation as they do in reality. Oracle: the sequential least-fixpoint model (key sets and stored values), Check()==nil iff nothing dangles, Filter by tags/all equals the model's filter and is idempotent, termination without deadlock within 2|doc|+2 passes; under an injected fault only (nil, error) or the exact model result is accepted.",
+   note="Trusted: the scheduler's yield placement is complete for lock-protected code (a change that removes a lock is a data race outside this design); osmxml/encoding-xml are synchronous; for PBF runs osmpbf's own decoder goroutines are unsimulated (deterministic output; such runs get no injected read error or cancellation); unsynchronised data races (no lock or channel operation between the racing accesses) are invisible to a token scheduler; Filter's own map order is not behind a seam (evaluated 4x per run, 64x in replay); CountTags and Geom are not part of the statement and are not checked. Workers left behind by extract's error returns are counted, not reported (C18 is silent about them).",
    technique="deterministic simulation: token-passing scheduler over real goroutines (seeded interleavings, stalls), simulated file/seek faults and cancellation, sequential reference model, tape-minimised replay"),
 }
 
